@@ -159,6 +159,10 @@ class World:
         self.squeue_fail = int(scn.get("squeue_fail", 0))     # failing squeue attempts still to inject
         self.squeue_skip = int(scn.get("squeue_skip", 0))     # ... after this many successful attempts
         self.squeue_empty = int(scn.get("squeue_empty", 0))   # status queries answered "no jobs" (exit 0) although batches are
+        # status answers that show the active batches in states JADE does not map (RUNNING batch displayed SUSPENDED, PENDING
+        # one REQUEUED -- an administrator suspended the partition for a moment): not a fault, the batches are as active as before
+        self.squeue_odd = int(scn.get("squeue_odd", 0))
+        self.squeue_odd_skip = int(scn.get("squeue_odd_skip", 0))
         self.squeue_empty_skip = int(scn.get("squeue_empty_skip", 0))   # active (controller restart) ... after this many
         self.faults_armed = {}  # pid -> dict(op=..., n=...)
         self.cwd = None         # working directory of the virtual processes (pipelines: auto-config files are relative)
@@ -654,17 +658,24 @@ class World:
             self.ev(e="fault", pid=p.pid, k=p.label, kind="squeue-empty", at="squeue", b=self._bnum(p.batch))
             self.ev(e="squeue", pid=p.pid, ok=True, ans=[])
             return self._reply(p, h=h, rc=0, stdout="", stderr="")
+        odd = False
+        if self.squeue_odd_skip > 0:
+            self.squeue_odd_skip -= 1
+        elif self.squeue_odd > 0:
+            self.squeue_odd -= 1
+            odd = True
+        disp = (lambda st: {"RUNNING": "SUSPENDED", "PENDING": "REQUEUED"}[st]) if odd else (lambda st: st)
         if "-j" in argv:
             hid = argv[argv.index("-j") + 1]
             b = self.batches.get(hid)
             if b and b["state"] in ("PENDING", "RUNNING"):
-                outp = f"{hid:>12}  job_batch_{b['b']}  {b['state']}\n"
-                ans = [[hid, b["state"]]]
+                outp = f"{hid:>12}  job_batch_{b['b']}  {disp(b['state'])}\n"
+                ans = [[hid, disp(b["state"])]]
             else:
                 outp, ans = "", []
             self.ev(e="squeue", pid=p.pid, ok=True, ans=ans)
             return self._reply(p, h=h, rc=0, stdout=outp, stderr="")
-        ans = [[hid, b["state"]] for hid, b in self.batches.items() if b["state"] in ("PENDING", "RUNNING")]
+        ans = [[hid, disp(b["state"])] for hid, b in self.batches.items() if b["state"] in ("PENDING", "RUNNING")]
         outp = "".join(f"{hid:>18}  {s:<10}\n" for hid, s in ans)
         self.ev(e="squeue", pid=p.pid, ok=True, ans=ans)
         return self._reply(p, h=h, rc=0, stdout=outp, stderr="")
